@@ -76,9 +76,42 @@ class Explorer:
     def check(self, *extra):
         t = time.time()
         self.queries += 1
-        r = self.solver.check(*extra)
+        if INT_FIRST:
+            r = self._check_as_int(extra)
+            if r == z3.unknown:
+                r = self.solver.check(*extra)
+        elif INT_FALLBACK and self.timeout_ms > FAST_MS:
+            # staged: a short bit-vector attempt, then the integer restatement, then the bit-vector solver with the full budget
+            self.solver.set("timeout", FAST_MS)
+            r = self.solver.check(*extra)
+            if r == z3.unknown:
+                r = self._check_as_int(extra)
+                if r == z3.unknown:
+                    self.solver.set("timeout", self.timeout_ms)
+                    r = self.solver.check(*extra)
+            self.solver.set("timeout", self.timeout_ms)
+        else:
+            r = self.solver.check(*extra)
         self.solver_time += time.time() - t
         return r
+
+    def _check_as_int(self, extra):
+        """Second opinion over mathematical integers (see bv2int). Only `unsat`, or a model the BV solver confirms."""
+        from . import bv2int
+        self.int_queries = getattr(self, "int_queries", 0) + 1
+        verdict, vals = bv2int.check_as_int(list(self.solver.assertions()) + list(extra), timeout_ms=min(self.timeout_ms, 60000))
+        if verdict == "unsat":
+            self.int_unsat = getattr(self, "int_unsat", 0) + 1
+            return z3.unsat
+        if verdict == "sat":
+            pins = []
+            for name, (v, w) in vals.items():
+                if name in self.inputs:
+                    pins.append(self.inputs[name] == z3.BitVecVal(v, w))
+            r2 = self.solver.check(*extra, *pins)
+            if r2 == z3.sat:
+                return z3.sat
+        return z3.unknown
 
     def branch(self, cond) -> bool:
         """Decide a symbolic condition; fork if both feasible."""
@@ -183,6 +216,9 @@ class Explorer:
 
 
 CUR: Explorer = None  # type: ignore
+INT_FALLBACK = True
+INT_FIRST = False      # harness opt-in: ask the integer restatement first (arithmetic-heavy obligations)
+FAST_MS = 6000
 
 
 def lift(x):
@@ -523,7 +559,8 @@ def _sub(a, b):
 # ABSTRACT_BITS becomes an application of an uninterpreted z3 function. A claim proved for
 # every interpretation holds for the real operator; a counterexample may be spurious and is
 # caught by the mandatory concrete replay (reported as inconclusive, never as a violation).
-ABSTRACT_BITS = None
+ABSTRACT_BITS = None        # products of two symbolic operands wider than this become mul640(a, b)
+ABSTRACT_DIV_BITS = None    # quotients wider than this become floordiv640(a, b)
 _ABS_FUNCS = {}
 
 
@@ -563,10 +600,37 @@ def _divisor_check(b):
         # now b != 0 on this path; intervals unchanged (conservative)
 
 
+DIV_WITNESS_MIN_BITS = 20
+
+
+def _divmod_const(a, b):
+    """a // b, a % b for a concrete divisor b > 0 that is not a power of two, through a quotient/remainder witness:
+    a == q*b + r and 0 <= r < b determine q and r uniquely (Python floor semantics), and a multiplication by a
+    constant is far cheaper for the bit-blaster than a divider circuit."""
+    key = ("divw", a._e.get_id(), b)
+    hit = CUR.path_state.get(key)
+    if hit is not None:
+        return hit
+    qlo, qhi = a.lo // b, a.hi // b
+    q = CUR.fresh_var("divq", qlo, qhi)
+    r = CUR.fresh_var("divr", 0, b - 1)
+    w = max(a.w, _bits_for(qlo * b, qhi * b + b)) + 1
+    CUR.assume_z3(a.ext(w) == lift(q).ext(w) * z3.BitVecVal(b, w) + lift(r).ext(w))
+    CUR.path_state[key] = (q, r)
+    return q, r
+
+
+def _use_div_witness(a, b):
+    return (b.concrete and b.lo > 2 and (b.lo & (b.lo - 1)) != 0 and not a.concrete and a.w >= DIV_WITNESS_MIN_BITS
+            and CUR is not None and (ABSTRACT_DIV_BITS is None or a.w + 1 <= ABSTRACT_DIV_BITS))
+
+
 def _mod(a, b):
     _divisor_check(b)
     if a.concrete and b.concrete:
         return a.lo % b.lo
+    if _use_div_witness(a, b):
+        return _divmod_const(a, b.lo)[1]
     if b.lo > 0:
         lo, hi = 0, b.hi - 1
         if a.lo >= 0:
@@ -587,6 +651,8 @@ def _floordiv(a, b):
     _divisor_check(b)
     if a.concrete and b.concrete:
         return a.lo // b.lo
+    if _use_div_witness(a, b):
+        return _divmod_const(a, b.lo)[0]
     cands = []
     for x in (a.lo, a.hi):
         for y in (b.lo, b.hi, 1 if b.lo <= 1 <= b.hi else None, -1 if b.lo <= -1 <= b.hi else None):
@@ -594,7 +660,7 @@ def _floordiv(a, b):
                 cands.append(x // y)
     lo, hi = min(cands), max(cands)
     w = max(a.w, b.w) + 1
-    if (ABSTRACT_BITS is not None and w > ABSTRACT_BITS and not a.concrete
+    if (ABSTRACT_DIV_BITS is not None and w > ABSTRACT_DIV_BITS and not a.concrete
             and not (b.concrete and b.lo > 0 and b.lo & (b.lo - 1) == 0)):
         aw = _abs_width(w)
         r = _abs_fn("floordiv", aw)(a.ext(aw), b.ext(aw))
